@@ -202,6 +202,85 @@ def r17_6(ctx, layers):
     ctx.run_rule("R17.6", "unmatched branches of the trace carry no routes", body, floor=10)
 
 
+def equal_flag_invariants(f, outer, inner, s):
+    """Pairs of named bool locals that are provably equal whenever the inner loop head is reached:
+    both are set to the same constant on the way from the outer body to the inner loop, and every
+    inner iteration leaves them with the same value."""
+    cands = set()
+    its = list(inner.iteration_paths(s))
+    tested = set()
+    for p in its:
+        for a, v in p.conds:
+            if a[0] == "local" and f.local_name(a[1]):
+                tested.add(a[1])
+    out = set()
+    tested = sorted(tested)
+    for i, x in enumerate(tested):
+        for y in tested[i + 1:]:
+            ok = True
+            # (a) initialisation
+            inits = 0
+            for p in s.paths(start=outer.body, stops={inner.next_block, inner.head()}):
+                if p.end[0] != "stop":
+                    continue
+                sx = [e[3] for e in p.events if e[0] == "set" and e[1] == x]
+                sy = [e[3] for e in p.events if e[0] == "set" and e[1] == y]
+                inits += 1
+                if not sx or not sy or sx[-1] != sy[-1] or sx[-1][0] != "const":
+                    ok = False
+            # (b) preservation
+            for p in its:
+                if p.end[0] != "stop":
+                    continue
+                sx = [e[3] for e in p.events if e[0] == "set" and e[1] == x]
+                sy = [e[3] for e in p.events if e[0] == "set" and e[1] == y]
+                if not sx or not sy or sx[-1] != sy[-1]:
+                    ok = False
+            if ok and inits:
+                out.add((x, y))
+    return out
+
+
+def r17_7(ctx, layers):
+    """The per-request memo of condition results stores, in trace as in matching, the result of
+    evaluating that very condition (so that a later group sees what matching would compute)."""
+    def body(r):
+        for L in layers:
+            if L.short not in ("HeaderMatcher", "DateTimeMatcher"):
+                continue
+            for op in ("match_request", "trace"):
+                f = L.methods[op]
+                r.analysed(f)
+                s = Sym(f, copies=True, max_paths=200000)
+                lps = for_loops(f)
+                outer = [lp for lp in lps if mentions_field(lp.source, "condition_groups", L.adt) and lp.source[0] == "field" and lp.source[2] == "condition_groups"]
+                inner = [lp for lp in lps if lp not in outer and mentions(lp.source, lambda x: x[0] == "call" and x[1].endswith("Iterator>::next"))]
+                if len(outer) != 1 or len(inner) != 1:
+                    r.ob("memo:%s::%s:loops" % (L.short, op), False, f.site, "expected one loop over condition_groups and one over the group's conditions (%d, %d)" % (len(outer), len(inner)))
+                    continue
+                outer, inner = outer[0], inner[0]
+                inv = equal_flag_invariants(f, outer, inner, s)
+                bad = set()
+                n_ins = 0
+                for p in inner.iteration_paths(s):
+                    cm = {a: v for a, v in p.conds}
+                    if any(cm.get(("local", x)) is not None and cm.get(("local", y)) is not None and cm[("local", x)] != cm[("local", y)] for x, y in inv):
+                        continue  # infeasible under the established invariant
+                    ev = [e for e in p.events if e[0] == "call" and e[1].rsplit("::", 1)[1] == "match_value"]
+                    for e in p.events:
+                        if e[0] == "call" and e[1].endswith("BTreeMap::insert") and e[2][0][0] == "local" and "execute" in (f.local_name(e[2][0][1]) or ""):
+                            n_ins += 1
+                            val = e[2][2]
+                            if not ev:
+                                bad.add("a memo entry is written without evaluating the condition")
+                                continue
+                            if val != ev[-1][3]:
+                                bad.add("stores %s, not the result of match_value" % show(val, f)[:60])
+                r.ob("memo:%s::%s" % (L.short, op), not bad and n_ins >= 1, f.site,
+                     "every memo write stores the match_value result of that condition%s" % ((" (flag invariants used: %s)" % sorted((f.local_name(x), f.local_name(y)) for x, y in inv)) if inv else "") if not bad else "; ".join(sorted(bad)) + ": a later group reads a value matching would not have computed")
+    ctx.run_rule("R17.7", "condition memo agrees between matching and trace", body, floor=4)
+
+
 def run(ctx):
     try:
         layers = LY.discover(ctx.facts)
@@ -214,3 +293,4 @@ def run(ctx):
     r17_3(ctx, layers)
     r17_4(ctx)
     r17_6(ctx, layers)
+    r17_7(ctx, layers)
